@@ -367,6 +367,18 @@ def overaccept_cases(rng):
         out.append(S.d("DomainName", wname(labs)))
         tail = wname(labs[1:])
         out.append(S.d("Question", tail + bytes([len(labs[0])]) + labs[0] + b"\xc0\x00" + b"\x00\x01\x00\x01"))
+    # validated text fields (CAA tag: ASCII letters/digits; X25/ISDN address: ASCII digits; ISDN subaddress: ASCII hex):
+    # characters that a Unicode-aware predicate (is_alphanumeric, is_numeric, is_digit(16)) would let through
+    texts = [b"issue", b"ISSUE", "iss\u00fce".encode(), "ISSU\u00c9".encode(), "tag\u0663".encode(), "\uff11\uff12".encode(),
+             "x\u00b2".encode(), "\u01c5".encode(), "\u00e9".encode(), "\uff41\uff26".encode(), "\u0661\u0662\u0663".encode(),
+             b"a b", b"a-b", b"a.b", b"", b"0123456789", b"09afAF", b"g", b"+1", b" 1", b"1 ", "\u06f1".encode(), "1\u0969".encode()]
+    st = lambda b: bytes([len(b)]) + b
+    for t in texts:
+        out.append(S.d("RR", rr_wire(257, 1, 5, b"\x00" + st(t) + b"v")))          # CAA flags tag value
+        out.append(S.d("RR", rr_wire(19, 1, 5, st(t))))                            # X25 PSDN address
+        out.append(S.d("RR", rr_wire(20, 1, 5, st(t))))                            # ISDN address
+        out.append(S.d("RR", rr_wire(20, 1, 5, st(b"12") + st(t))))                # ISDN address + subaddress
+        out.append(S.d("RR", rr_wire(27, 1, 5, st(t) + st(b"1") + st(b"2"))))      # GPOS
     # reserved bits, trailing garbage
     for fl in (0x0040, 0x7800, 0x000c, 0x000f):
         out.append(S.d("Dns", msg_wire(fl=fl)))
